@@ -258,6 +258,8 @@ func toInt(v any) int {
 		return x.id
 	case panicErr:
 		return int(x)
+	case sliceErr:
+		return x[0]
 	case error:
 		return -1
 	}
@@ -308,6 +310,11 @@ func (e idErr) Error() string { return "fail#" + strconv.Itoa(int(e)) }
 type panicErr int
 
 func (e panicErr) Error() string { panic("Error() of a failure value called by the pipeline") }
+
+// sliceErr is a failure whose dynamic type is not comparable
+type sliceErr []int
+
+func (e sliceErr) Error() string { return "fail#" + strconv.Itoa(e[0]) }
 
 // ctxErr is a step failure that wraps a context error (its own deadline, not the pipeline's)
 type ctxErr struct {
